@@ -3,6 +3,12 @@ import re
 EXPIRY = 660.0
 PERIOD = 300.0
 NUM_RE = re.compile(r"^[1-9][0-9]*$")
+import os as _os
+# "contaminated" marks every object alive when some violation was reported.  It used to switch the lifetime oracles
+# off for them (to keep reports short); it no longer does: the model follows the statements, not the store, so what
+# a broken tree does to such an object later is judged like anything else (it can only matter on a tree that has
+# already violated something).  VERIF_CONTAM=1 restores the old behaviour for comparison.
+SOFT = frozenset() if _os.environ.get("VERIF_CONTAM") == "1" else frozenset({"contaminated"})
 
 
 def np_find(d, app, name):
